@@ -140,7 +140,7 @@ func (u *Unit) elemAddr(base, idx Term) Term {
 
 // sliceElemAddr: address of s[i].
 func (u *Unit) sliceElemAddr(s, i Term) Term {
-	return u.elemAddr(App("sptr", SV, s), Add(App("soff", SInt, s), i))
+	return u.elemAddr(u.sptrOf(s), Add(u.soffOf(s), i))
 }
 
 func (u *Unit) load(st *State, addr Term, t types.Type) Term {
@@ -162,7 +162,43 @@ func (u *Unit) load(st *State, addr Term, t types.Type) Term {
 	}
 	key, so := u.memKey(t)
 	m := u.getMem(st, key, so)
-	return u.selectMem(st, m, addr, so, 0)
+	v := u.selectMem(st, m, addr, so, 0)
+	if so == SV && v.Op == "select" {
+		u.clockFacts(v, t, 0)
+	}
+	return v
+}
+
+// clockFacts: allocation clock. A reference found in memory (or in a map / on a
+// channel) now was allocated no later than now, so it differs from every
+// object allocated later on this path.
+func (u *Unit) clockFacts(v Term, t types.Type, depth int) {
+	if depth > 2 {
+		return
+	}
+	clock := IntLit(int64(u.fresh))
+	if fromInitialMemory(v) {
+		// the value is read from the memory the function was entered with: it refers
+		// to an object that existed before the call
+		clock = IntLit(0)
+	}
+	switch tt := t.Underlying().(type) {
+	case *types.Pointer, *types.Map, *types.Chan:
+		u.Axiom(Le(App("aid", SInt, App("aobj", SV, v)), clock))
+	case *types.Slice:
+		u.Axiom(Le(App("aid", SInt, App("aobj", SV, App("sptr", SV, v))), clock))
+	case *types.Struct:
+		if v.Sort == SV {
+			return
+		}
+		si := u.P.TW.Struct(t)
+		for i := 0; i < tt.NumFields(); i++ {
+			switch tt.Field(i).Type().Underlying().(type) {
+			case *types.Pointer, *types.Map, *types.Chan, *types.Slice, *types.Struct:
+				u.clockFacts(u.Field(v, si, i), tt.Field(i).Type(), depth+1)
+			}
+		}
+	}
 }
 
 func (u *Unit) selectMem(st *State, m, addr Term, so Sort, depth int) Term {
@@ -299,6 +335,9 @@ func (u *Unit) mapLookup(st *State, mt *types.Map, m, k Term) (has Term, val Ter
 	valArr := u.mapValOf(st, mt, m)
 	has = Select(hasArr, k, SBool, nil)
 	val = Select(valArr, k, es, nil)
+	if val.Op == "select" {
+		u.clockFacts(val, mt.Elem(), 0)
+	}
 	// nil map has no keys; a present key implies len >= 1
 	u.Axiom(Implies(Eq(m, NilV), Not(has)))
 	u.Axiom(Implies(has, Ge(u.mapLenOf(st, mt, m), IntLit(1))))
@@ -384,4 +423,22 @@ func (u *Unit) notPrivate(addr Term) Term {
 		alts = append(alts, Eq(App("akind", SInt, App("abase", SV, cur)), IntLit(int64(k))))
 	}
 	return Not(Or(alts...))
+}
+
+// fromInitialMemory: v is (a projection of) a select whose array is an
+// initial-memory constant M0_*.
+func fromInitialMemory(v Term) bool {
+	cur := v
+	for {
+		switch {
+		case cur.Op == "select":
+			cur = cur.Args[0]
+		case cur.Op == "" :
+			return strings.HasPrefix(cur.A, "M0_")
+		case len(cur.Args) == 1 && strings.HasPrefix(cur.Op, "S_"): // struct field selector
+			cur = cur.Args[0]
+		default:
+			return false
+		}
+	}
 }
